@@ -40,7 +40,7 @@ def inverse_oracle(case):
     return None
 
 def run(ctx):
-    n = 1500 if ctx['tier'] == 'quick' else 30000
+    n = (1500 if ctx['tier'] == 'quick' else 30000) * ctx.get('boost', 1)
     return mathprop.run_ranges('C09', [(100, 103), (108, 108), (110, 115)], n, ctx['seed'], oracle=inverse_oracle)
 def match_known(f, known): return None
 def replay(path): return mathprop.replay('C09', path)
